@@ -31,7 +31,7 @@ enum Slot {
     A(Arc<T>), AB(Arc<TB>), AD(Arc<dyn TrW>), AS(Arc<[T]>), AU(Arc<US>), AH(Arc<HS>), AW(Arc<HWL>),
     AM(Arc<MaybeUninit<T>>), AMS(Arc<[MaybeUninit<T>]>),
     Th(ThinArc<T, T>), O(OffsetArc<T>), U(ArcUnion<T, TB>),
-    Q(UniqueArc<T>), QS(UniqueArc<[T]>), QH(UniqueArc<HS>), QD(UniqueArc<dyn TrW>),
+    Q(UniqueArc<T>), QS(UniqueArc<[T]>), QH(UniqueArc<HS>), QD(UniqueArc<dyn TrW>), QW(UniqueArc<HWL>),
     QM(UniqueArc<MaybeUninit<T>>), QMS(UniqueArc<[MaybeUninit<T>]>), QHM(UniqueArc<HSM>),
     R(*const T), RB(*const TB), RS(*const [T]), RD(*const dyn TrW), RT(*const c_void),
 }
@@ -140,6 +140,7 @@ impl World {
             }
             Q(q) => ("uniq", "sized", first_word(q), 1, vec![], format!("[{}]", show_t(q))),
             QS(q) => ("uniq", "slice", first_word(q), q.len(), vec![], show_slice(q)),
+            QW(q) => ("uniq", "hwl", first_word(q), q.slice.len(), vec![], format!("h{}{}", show_t(&q.header.header), show_slice(&q.slice))),
             QD(q) => ("uniq", "dyn", first_word(q), 1, vec![], { let (x, y) = q.read_dyn(); format!("[{}.{}]", x, y) }),
             QH(q) => ("uniq", "hs", first_word(q), q.slice.len(), vec![], format!("h{}{}", show_t(&q.header), show_slice(&q.slice))),
             QM(q) => ("uniq", "mu", first_word(q), 1, vec![], "-".into()),
@@ -164,7 +165,7 @@ impl World {
             Empty => return -1,
             A(a) => first_word(a), AB(a) => first_word(a), AD(a) => first_word(a), AS(a) => first_word(a), AU(a) => first_word(a),
             AH(a) => first_word(a), AW(a) => first_word(a), AM(a) => first_word(a), AMS(a) => first_word(a), Th(a) => first_word(a),
-            O(a) => first_word(a), U(a) => first_word(a) & !1, Q(a) => first_word(a), QS(a) => first_word(a), QH(a) => first_word(a), QD(a) => first_word(a),
+            O(a) => first_word(a), U(a) => first_word(a) & !1, Q(a) => first_word(a), QS(a) => first_word(a), QH(a) => first_word(a), QD(a) => first_word(a), QW(a) => first_word(a),
             QM(a) => first_word(a), QMS(a) => first_word(a), QHM(a) => first_word(a),
             R(p) => *p as usize, RB(p) => *p as usize, RS(p) => *p as *const T as usize, RD(p) => *p as *const u8 as usize, RT(p) => *p as usize,
         };
@@ -353,7 +354,7 @@ fn run_op(w: &mut World, f: &[&str]) -> St {
                 ("unionSecond", AB(_)) => true,
                 ("eraseHeader", AU(_)) => true,
                 ("addHeader", AS(_)) => true,
-                ("shareable", Q(_) | QS(_) | QH(_) | QM(_) | QMS(_) | QD(_)) => true,
+                ("shareable", Q(_) | QS(_) | QH(_) | QM(_) | QMS(_) | QD(_) | QW(_)) => true,
                 ("assumeInit", AM(_) | QM(_)) => w.all_written(s, 1),
                 ("assumeInit", AMS(a)) => { let k = a.len(); w.all_written(s, k) }
                 ("assumeInit", QMS(a)) => { let k = a.len(); w.all_written(s, k) }
@@ -385,6 +386,7 @@ fn run_op(w: &mut World, f: &[&str]) -> St {
                     ("shareable", Q(q)) => A(q.shareable()),
                     ("shareable", QS(q)) => AS(q.shareable()),
                     ("shareable", QD(q)) => AD(q.shareable()),
+                    ("shareable", QW(q)) => AW(q.shareable()),
                     ("shareable", QH(q)) => AH(q.shareable()),
                     ("shareable", QM(q)) => AM(q.shareable()),
                     ("shareable", QMS(q)) => AMS(q.shareable()),
@@ -521,14 +523,14 @@ fn run_op(w: &mut World, f: &[&str]) -> St {
         }
         "tryUnique" if n == 2 => {
             let s = idx!(f[1]);
-            if !matches!(w.slots[s], A(_) | AS(_) | AH(_) | AM(_) | AMS(_)) { bad!(); }
+            if !matches!(w.slots[s], A(_) | AS(_) | AH(_) | AW(_) | AM(_) | AMS(_)) { bad!(); }
             // alternate between the two public entry points
             macro_rules! tu { ($a:expr, $arcv:ident, $uv:ident) => {{
                 let r = if s % 2 == 0 { Arc::try_unique($a) } else { <UniqueArc<_> as std::convert::TryFrom<Arc<_>>>::try_from($a) };
                 match r { Ok(u) => { w.slots[s] = $uv(u); "ok" } Err(a) => { w.slots[s] = $arcv(a); "err" } }
             }}; }
             let r = match w.take(s) {
-                A(a) => tu!(a, A, Q), AS(a) => tu!(a, AS, QS), AH(a) => tu!(a, AH, QH), AM(a) => tu!(a, AM, QM), AMS(a) => tu!(a, AMS, QMS),
+                A(a) => tu!(a, A, Q), AS(a) => tu!(a, AS, QS), AH(a) => tu!(a, AH, QH), AW(a) => tu!(a, AW, QW), AM(a) => tu!(a, AM, QM), AMS(a) => tu!(a, AMS, QMS),
                 _ => unreachable!(),
             };
             St::Ok(r.to_string())
@@ -540,6 +542,7 @@ fn run_op(w: &mut World, f: &[&str]) -> St {
                 QS(q) => if let Some(x) = q.first_mut() { x.set_val(v) },
                 QH(q) => q.header.set_val(v),
                 QD(q) => q.set(v),
+                QW(q) => q.header.header.set_val(v),
                 _ => bad!(),
             }
             St::Ok(String::new())
